@@ -26,7 +26,7 @@ RULE = ("case = (recorded-run spec, crash boundary k). Specs are drawn by Hypoth
         "coupled pair under NonlinearBlockGS), run by DOEDriver(ListGenerator, 2-4 points) or by repeated run_model with "
         "problem.record(), one SqliteRecorder attached to a drawn subset of {driver, problem, model, component, nonlinear "
         "solver}, record_derivatives drawn. For each spec EVERY boundary k = 1..K of the sqlite call stream after final_setup is "
-        "a case (K is typically 40-200). Non-trivial = the process died strictly inside a transaction (after an INSERT, before "
+        "a case (K is typically 40-200), plus 6 real SIGKILLs at delays spread over the run. Non-trivial = the process died strictly inside a transaction (after an INSERT, before "
         "its commit) or before the first commit of a case. Distinct = distinct (spec, k).")
 ASSUMPTIONS = [
     "process death is modelled by os._exit(137) at a call boundary of the sqlite3 API inside a forked child: neither Python "
@@ -34,6 +34,8 @@ ASSUMPTIONS = [
     "reach (no block-device fault injection in the sandbox)",
     "crash points start when final_setup() has returned (the recorder's own startup, which creates the schema in one "
     "transaction, is not part of 'after the recorder started')",
+    "a second tier SIGKILLs an uninstrumented child after a delay (counted from the moment final_setup returned) spread over the measured recording time; its timing is not "
+    "reproducible, so on a violation the crashed database files are embedded in the replay case",
     "the reader runs in the parent process on the files the dead child left behind (main database + hot journal)",
 ]
 UNIT_TIMEOUT = {'quick': 1500, 'thorough': 4 * 3600}
@@ -195,6 +197,7 @@ def _child(spec, k, wdir, wfd):
         p.setup()
         p.final_setup()
         _Crash.armed = True
+        os.write(wfd, b'A')          # tells the parent that recording proper starts now
         execute_run(p, spec)
         os.write(wfd, json.dumps({'label': 'completed', 'count': _Crash.count}).encode())
         code = 0
@@ -218,16 +221,24 @@ def run_child(spec, k):
         os.close(r)
         _child(spec, k, wdir, w)
     os.close(w)
+    import time
     data = b''
+    t_arm = None
     while True:
         chunk = os.read(r, 65536)
         if not chunk:
             break
+        if t_arm is None and chunk[:1] == b'A':
+            t_arm = time.time()
         data += chunk
+    t_end = time.time()
     os.close(r)
     _, status = os.waitpid(pid, 0)
+    if data[:1] == b'A':
+        data = data[1:]
     info = json.loads(data.decode()) if data else {'label': 'no-report'}
     info['exit'] = os.waitstatus_to_exitcode(status)
+    info['armed_to_end_ms'] = (t_end - t_arm) * 1000.0 if t_arm else None
     return info, wdir
 
 
@@ -261,7 +272,82 @@ def reference(spec):
     return _ref_cache[key]
 
 
+def check_sigkill(case):
+    """Random-time tier: the child is SIGKILLed by the parent after a drawn delay (timing is not reproducible; when a
+    violation is found the crashed database is embedded in the case, and replaying the case re-reads that file)."""
+    import base64
+    import signal
+    import time
+    spec = case['spec']
+    res = Result(classes=['sigkill'])
+    L, K = reference(spec)
+    wdir = None
+    try:
+        if case.get('db_b64'):
+            wdir = tempfile.mkdtemp(prefix='c18_')
+            for name, b64 in case['db_b64'].items():
+                with open(os.path.join(wdir, name), 'wb') as f:
+                    f.write(base64.b64decode(b64))
+        else:
+            wdir = tempfile.mkdtemp(prefix='c18_')
+            r, w = os.pipe()
+            sys.stdout.flush()
+            pid = os.fork()
+            if pid == 0:
+                os.close(r)
+                _child(spec, None, wdir, w)
+            os.close(w)
+            os.read(r, 1)            # wait until the child reports that final_setup has returned
+            time.sleep(case['delay_ms'] / 1000.0)
+            try:
+                os.kill(pid, signal.SIGKILL)
+            except ProcessLookupError:
+                pass
+            os.close(r)
+            os.waitpid(pid, 0)
+        path = os.path.join(wdir, 'cases.sql')
+        if not os.path.exists(path):
+            res.classes.append('killed_before_file_exists')
+            return res
+        files = {n: open(os.path.join(wdir, n), 'rb').read() for n in os.listdir(wdir) if n.startswith('cases.sql')}
+        try:
+            got = read_cases(wdir)
+        except Exception as e:
+            import sqlite3 as _s
+            # a kill during the recorder's own start-up (schema creation) is before 'the recorder started'
+            try:
+                con = _s.connect(path)
+                ntab = con.execute("select count(*) from sqlite_master where type='table'").fetchone()[0]
+                con.close()
+            except Exception:
+                ntab = -1
+            if ntab == 0:
+                res.classes.append('killed_during_recorder_startup')
+                return res
+            res.fail('sigkill:unreadable-after-kill', f"{type(e).__name__}: {e}")
+            case['db_b64'] = {n: base64.b64encode(b).decode() for n, b in files.items()}
+            return res
+        names = [g[0] for g in got]
+        ref_names = [g[0] for g in L]
+        bad = names != ref_names[:len(names)]
+        if not bad:
+            for (n, src, vals), (_, rsrc, rvals) in zip(got, L):
+                if src != rsrc or set(vals) != set(rvals) or any(not np.array_equal(vals[v], rvals[v]) for v in vals):
+                    bad = True
+        if bad:
+            res.fail('sigkill:not-a-consistent-prefix', f"got {names} reference {ref_names}")
+            case['db_b64'] = {n: base64.b64encode(b).decode() for n, b in files.items()}
+        res.nontrivial = 0 < len(names) < len(ref_names)
+        res.classes.append('partial_prefix' if res.nontrivial else ('empty' if not names else 'complete'))
+        return res
+    finally:
+        if wdir:
+            shutil.rmtree(wdir, ignore_errors=True)
+
+
 def check(case):
+    if case.get('kind') == 'sigkill':
+        return check_sigkill(case)
     spec, k = case['spec'], case['k']
     res = Result()
     L, K = reference(spec)
@@ -351,5 +437,12 @@ def run_unit(unit, ctx):
                     r2.fail('prefix-length-not-monotone', f"k={k}: prefix length {plen} after {last}")
                     ctx.record({'spec': spec, 'k': k}, r2)
                 last = max(last, plen)
+        # random-time SIGKILL tier (not reproducible in timing): delays spread over the measured run time
+        info, wd = run_child(spec, None)
+        shutil.rmtree(wd, ignore_errors=True)
+        dur_ms = max(2.0, info.get('armed_to_end_ms') or 2.0)
+        nk = unit.get('nkills', 6)
+        for j in range(nk):
+            core.safe_check(check, {'kind': 'sigkill', 'spec': spec, 'delay_ms': round(dur_ms * (j + 0.5) / nk, 1)}, ctx)
         ctx.extra['specs'] = ctx.extra.get('specs', 0) + 1
         ctx.extra['boundaries'] = ctx.extra.get('boundaries', 0) + K
